@@ -239,7 +239,7 @@ def cases(draw, all_families: bool, known_keys):
 
 def plan(tier: str) -> list[dict]:
     if tier == "quick":
-        return [{"examples": 4, "all_families": False, "cost": 6} for _ in range(4)]
+        return [{"examples": 6, "all_families": False, "cost": 6} for _ in range(6)]
     return [{"examples": 25, "all_families": True, "cost": 12} for _ in range(16)]
 
 
